@@ -1389,3 +1389,104 @@ Proof.
   intros. unfold run_vote, collect. rewrite !map_app. cbn [map].
   apply passive_replace_proof; left; reflexivity.
 Qed.
+
+(* ====================================================================== *)
+(* histories on one instance                                                *)
+
+Lemma trace_app : forall lg a b st,
+  trace lg st (a ++ b) = trace lg st a ++ trace lg (final_state lg st a) b.
+Proof.
+  intros lg a. induction a as [| o r IH]; intros b st; [reflexivity |].
+  cbn [app trace final_state]. destruct o; rewrite IH; reflexivity.
+Qed.
+
+Lemma final_state_app : forall lg a b st,
+  final_state lg st (a ++ b) = final_state lg (final_state lg st a) b.
+Proof.
+  intros lg a. induction a as [| o r IH]; intros b st; [reflexivity |].
+  cbn [app final_state]. apply IH.
+Qed.
+
+Lemma voters_from_length : forall colony sc i, length (voters_from i colony sc) = length colony.
+Proof. induction colony as [| p r IH]; intros; cbn; [reflexivity | rewrite IH; reflexivity]. Qed.
+
+Lemma ballot_len : forall colony sc, len (collect (voters_of colony sc)) = len colony.
+Proof.
+  intros. unfold len, collect, voters_of. rewrite map_length, voters_from_length. reflexivity.
+Qed.
+
+(* every recorded vote was taken in the state reached by the operations before
+   it, and its outcome is the aggregation of the ballot of the colony of THAT
+   state under the configuration of THAT state *)
+Lemma trace_sound : forall lg ops st s sc o,
+  In (s, sc, o) (trace lg st ops) ->
+  (exists pre rest, ops = pre ++ OVote sc :: rest /\ s = final_state lg st pre) /\
+  o = aggregate lg (s_cfg s) (collect (voters_of (s_colony s) sc)).
+Proof.
+  intros lg ops. induction ops as [| op r IH]; intros st s sc o H; [destruct H |].
+  cbn [trace] in H.
+  assert (REC : In (s, sc, o) (trace lg (fst (step lg st op)) r) ->
+          (exists pre rest, op :: r = pre ++ OVote sc :: rest /\ s = final_state lg st pre) /\
+          o = aggregate lg (s_cfg s) (collect (voters_of (s_colony s) sc))).
+  { intro H'. destruct (IH _ _ _ _ H') as [[pre [rest [E1 E2]]] E3]. split; [| exact E3].
+    exists (op :: pre), rest. split; [rewrite E1; reflexivity | exact E2]. }
+  destruct op; try (apply REC; exact H).
+  destruct H as [H | H]; [| apply REC; exact H].
+  injection H as <- <- <-. split; [| reflexivity].
+  exists [], r. split; reflexivity.
+Qed.
+
+(* and every vote operation of the history is recorded *)
+Lemma trace_complete : forall lg st pre sc rest,
+  In (final_state lg st pre, sc,
+      aggregate lg (s_cfg (final_state lg st pre))
+                (collect (voters_of (s_colony (final_state lg st pre)) sc)))
+     (trace lg st (pre ++ OVote sc :: rest)).
+Proof.
+  intros. rewrite trace_app. apply in_or_app. right. cbn [trace]. left. reflexivity.
+Qed.
+
+Lemma run_history_length : forall lg ops st,
+  length (run_history lg st ops) =
+  length (filter (fun o => match o with OVote _ => true | _ => false end) ops).
+Proof.
+  intros lg ops. unfold run_history. induction ops as [| o r IH]; intro st; [reflexivity |].
+  cbn [trace filter]. destruct o; cbn [map length]; rewrite IH; reflexivity.
+Qed.
+
+Lemma history_no_permit_proof : forall st ops s sc o,
+  In (s, sc, o) (trace false st ops) ->
+  valid_thr (s_cfg s) ->
+  (forall x, In x (voters_of (s_colony s) sc) -> casts Permit x = false) ->
+  is_permit o = false /\ is_reached o = false.
+Proof.
+  intros st ops s sc o H V NP. destruct (trace_sound _ _ _ _ _ _ H) as [_ ->].
+  apply (run_vote_no_permit_proof (s_cfg s) (voters_of (s_colony s) sc)); assumption.
+Qed.
+
+Lemma history_threshold_proof : forall st ops s sc o,
+  In (s, sc, o) (trace false st ops) ->
+  valid_thr (s_cfg s) -> c_strategy (s_cfg s) = ThresholdCount ->
+  let votes := collect (voters_of (s_colony s) sc) in
+  (is_reached o = true <->
+   (c_min_voters (s_cfg s) <= count_kind Permit votes + count_kind Block votes)%Z /\
+   count_criterion (c_custom (s_cfg s)) (len (s_colony s)) (count_kind Permit votes)).
+Proof.
+  intros st ops s sc o H V S votes. destruct (trace_sound _ _ _ _ _ _ H) as [_ ->].
+  fold votes. rewrite <- (ballot_len (s_colony s) sc). fold votes.
+  apply crit_threshold_proof; assumption.
+Qed.
+
+Lemma history_unanimous_proof : forall st ops s sc o,
+  In (s, sc, o) (trace false st ops) ->
+  let votes := collect (voters_of (s_colony s) sc) in
+  valid_thr (s_cfg s) -> Forall valid_vote votes -> votes <> [] ->
+  (forall v, In v votes -> v_kind v = Permit) ->
+  (c_min_voters (s_cfg s) <= len (s_colony s))%Z ->
+  unanimous_ok (s_cfg s) votes ->
+  is_permit o = true.
+Proof.
+  intros st ops s sc o H votes V VV NE AP MV U. destruct (trace_sound _ _ _ _ _ _ H) as [_ ->].
+  fold votes. apply unanimous_proof; auto.
+  unfold votes. rewrite ballot_len. exact MV.
+Qed.
